@@ -129,6 +129,7 @@ def gen_project(rnd, n_tags=12, programs=1, junk=True, big_tags=None, iid_base=N
     flat = b.udt("Flat", [("b0", atomic(0xC1), 0), ("b1", atomic(0xC1), 0), ("a", atomic(0xC3), 0), ("c", atomic(0xC4), 2),
                           ("s", atomic(0xC2), 3), ("b2", atomic(0xC1), 0), ("l", atomic(0xC5), 0), ("d", atomic(0xCB), 0)])
     nine = b.udt("Nine", [("q%d" % i, atomic(0xC1), 0) for i in range(9)] + [("w", atomic(0xC7), 0)])
+    in12 = b.udt("In12", [("x", atomic(0xC3), 0), ("v", atomic(0xCA), 0), ("d", atomic(0xC4), 0)])          # 12 bytes, no BOOLs
     outer = b.udt("Outer", [("id", atomic(0xC4), 0), ("in1", inner, 0), ("arr", inner, 3), ("name", strs[1], 0), ("flags", atomic(0xD3), 2),
                             ("ok", atomic(0xC1), 0)])
     deep = b.udt("Deep", [("o", outer, 0), ("n", atomic(0xC2), 0), ("os", outer, 2)])
@@ -195,7 +196,7 @@ def gen_project(rnd, n_tags=12, programs=1, junk=True, big_tags=None, iid_base=N
         add("TwinTag", twint, [])
         add("TwinArr", twint, [2])
         add("PlainD", atomic(0xC4), [])
-    named = {"Inner": inner, "Flat": flat, "Outer": outer, "Nine": nine, "STRING": s82, "Str": strs[1]}
+    named = {"Inner": inner, "Flat": flat, "Outer": outer, "Nine": nine, "STRING": s82, "Str": strs[1], "In12": in12}
     for spec in (big_tags or []):
         t = named[spec["udt"]] if "udt" in spec else spec["type"] if "type" in spec else atomic(spec["code"])
         add(spec["name"], t, spec["dims"])
